@@ -117,6 +117,10 @@ Proof.
     + intros _ _. apply elem_of_dom. rewrite lookup_insert. done.
     + rewrite lookup_insert_ne //. intros H1 H2. apply elem_of_dom. rewrite lookup_insert_ne //.
       apply elem_of_dom. by eapply wf_dirtymut.
+  - intros b o. rewrite P3 P4. destruct (decide (b = a)) as [->|Hn].
+    + intros _ _. apply elem_of_dom. rewrite lookup_insert. done.
+    + rewrite lookup_insert_ne //. intros H1 H2. apply elem_of_dom. rewrite lookup_insert_ne //.
+      apply elem_of_dom. by eapply wf_sdmut.
 Qed.
 
 Lemma committed_pending j a o o' k :
@@ -211,6 +215,7 @@ Proof.
   - intros a o k d. rewrite Ho (committed_env j j') //. apply W.
   - intros a o. rewrite Ho Hd Hs. apply W.
   - intros a. rewrite Ho Hd Hs. apply W.
+  - intros a o. rewrite Ho Hm. apply W.
   - intros a o. rewrite Ho Hm. apply W.
 Qed.
 
@@ -554,6 +559,9 @@ Proof.
         rewrite lookup_insert_ne //. apply W.
       * intros b o'. rewrite P1 P2. destruct (decide (b = a)) as [->|Hn].
         -- rewrite lookup_insert. intros [= <-]. apply (wf_dirtymut _ W a o Ho).
+        -- rewrite lookup_insert_ne //. apply W.
+      * intros b o'. rewrite P1 P2. destruct (decide (b = a)) as [->|Hn].
+        -- rewrite lookup_insert. intros [= <-]. apply (wf_sdmut _ W a o Ho).
         -- rewrite lookup_insert_ne //. apply W.
     + eapply (Rc_objs_upd st j j' c a); try done; by repeat split.
   - (* AddBalance *)
@@ -969,6 +977,24 @@ Proof.
       destruct A, jk2; rj; simpl in *. injection E2; intros; subst. done.
 Qed.
 
+Lemma revert_entry_thti e j : j_th (revert_entry e j) = j_th j ∧ j_ti (revert_entry e j) = j_ti j.
+Proof.
+  destruct e; simpl; unfold with_obj, al_delete_slot; rs; repeat case_match; rs; done.
+Qed.
+Lemma undo1_thti j : j_th (undo1 j) = j_th j ∧ j_ti (undo1 j) = j_ti j.
+Proof.
+  unfold undo1. destruct (j_entries j) as [|e rest]; [done|].
+  destruct (revert_entry_thti e j) as [H1 H2]. unfold unmutate.
+  destruct (mutation e) as [[a k]|]; [|destruct (revert_entry e j); rs; done].
+  destruct (j_muts (revert_entry e j) !! a); [|destruct (revert_entry e j); rs; done].
+  destruct (m_remove k m) as [m' []]; destruct (revert_entry e j); rs; done.
+Qed.
+Lemma revert_n_thti n j : j_th (revert_n n j) = j_th j ∧ j_ti (revert_n n j) = j_ti j.
+Proof.
+  revert j. induction n as [|n IH]; intros j; [done|]. rewrite revert_n_S.
+  destruct (j_entries j); [done|]. destruct (IH (undo1 j)) as [-> ->]. apply undo1_thti.
+Qed.
+
 (* ------------------------------------------------------------------ *)
 (* one step of each kind preserves the invariant and returns the same value *)
 Definition step_ok (j : jstate) (r : rstate) (o : op) : Prop :=
@@ -989,9 +1015,9 @@ Proof.
   rewrite Hth Hti in P1 P3. unfold step_ok. rewrite step_r_core //.
   rewrite -(sticky_eq _ _ _ o R) Hst orb_false_r.
   destruct (core_step (r_th r) (r_ti r) (r_cur r) o) as [c w] eqn:Ec. simpl in *.
-  assert (Hrv : j_revs (step_j j o).1 = j_revs j ∧ j_nextrev (step_j j o).1 = j_nextrev j).
-  { rewrite -{2 4}Hr. unfold revert_to. symmetry. split; apply revert_n_revs. }
-  destruct Hrv as [Hrv Hnx].
+  pose proof (revert_n_revs (length (j_entries (step_j j o).1) - length (j_entries j)) (step_j j o).1) as [Hrv Hnx].
+  fold (revert_to (length (j_entries j)) (step_j j o).1) in Hrv, Hnx. rewrite Hr in Hrv Hnx.
+  symmetry in Hrv, Hnx.
   split; [done|]. split.
   - done.
   - by destruct r.
@@ -1027,26 +1053,37 @@ Proof.
     rewrite -P15 revert_to_0. subst j'. by destruct j.
 Qed.
 
+Lemma stack_rel_set_next st j n revs stack :
+  stack_rel st j revs stack → stack_rel st (j <| j_nextrev := n |>) revs stack.
+Proof.
+  intros H. destruct revs as [|[id idx] revs'], stack as [|[id' c] stack']; try done.
+  destruct H as (-> & Hle & jk & E & H). simpl.
+  split; [done|]. split; [by destruct j|]. exists jk. split; [|done].
+  rewrite revert_to_set_next. revert E. generalize (revert_to idx j). intros A E.
+  destruct A, jk, j; rj; simpl in *. injection E; intros; subst. done.
+Qed.
+
 Lemma step_revert j r id : Inv j r → step_ok j r (ORevert id).
 Proof.
   intros [W R Hth Hti Hn Hs]. unfold step_ok. simpl.
   pose proof (stack_find _ _ _ _ id Hs) as H.
   destruct (find_revision id (j_revs j)) as [[idx rest]|].
   - destruct H as (Hle & c & stack' & -> & jk & E & Hrv & Wk & Rk & Sk). simpl. split; [done|].
-    rewrite E.
-    assert (P : j_bad (jk <| j_nextrev := j_nextrev j |>) = j_bad jk ∧ j_muts (jk <| j_nextrev := j_nextrev j |>) = j_muts jk ∧
-      j_ala (jk <| j_nextrev := j_nextrev j |>) = j_ala jk ∧ j_als (jk <| j_nextrev := j_nextrev j |>) = j_als jk ∧
-      j_logs (jk <| j_nextrev := j_nextrev j |>) = j_logs jk ∧ j_logsize (jk <| j_nextrev := j_nextrev j |>) = j_logsize jk ∧
-      j_tstor (jk <| j_nextrev := j_nextrev j |>) = j_tstor jk ∧ j_refund (jk <| j_nextrev := j_nextrev j |>) = j_refund jk ∧
-      j_objs (jk <| j_nextrev := j_nextrev j |>) = j_objs jk ∧ j_db (jk <| j_nextrev := j_nextrev j |>) = j_db jk ∧
-      j_destruct (jk <| j_nextrev := j_nextrev j |>) = j_destruct jk ∧ j_th (jk <| j_nextrev := j_nextrev j |>) = j_th jk ∧
-      j_ti (jk <| j_nextrev := j_nextrev j |>) = j_ti jk ∧ j_nextrev (jk <| j_nextrev := j_nextrev j |>) = j_nextrev j ∧
-      j_revs (jk <| j_nextrev := j_nextrev j |>) = j_revs jk) by (by destruct jk).
-    destruct P as (P1&P2&P3&P4&P5&P6&P7&P8&P9&P10&P11&P12&P13&P14&P15).
     assert (Hthk : j_th jk = j_th j ∧ j_ti jk = j_ti j).
-    { assert (Hx : j_th (jk <| j_nextrev := j_nextrev j |>) = j_th j ∧ j_ti (jk <| j_nextrev := j_nextrev j |>) = j_ti j).
-      { rewrite -E. admit. }
-      by rewrite P12 P13 in Hx. }
-    admit.
+    { destruct (revert_n_thti (length (j_entries j) - idx) j) as [T1 T2].
+      fold (revert_to idx j) in T1, T2. revert E T1 T2. generalize (revert_to idx j). intros A E T1 T2.
+      destruct A, jk; rj; simpl in *. injection E; intros; subst. done. }
+    rewrite E.
+    split.
+    + apply (wf_ext jk); try done; by destruct jk.
+    + replace (r_sticky _) with (r_sticky r) by (by destruct r).
+      replace (r_cur _) with c by (by destruct r). apply (Rc_ext _ jk); try done; by destruct jk.
+    + replace (r_th _) with (r_th r) by (by destruct r). rewrite -Hth -(proj1 Hthk). by destruct jk.
+    + replace (r_ti _) with (r_ti r) by (by destruct r). rewrite -Hti -(proj2 Hthk). by destruct jk.
+    + replace (r_next _) with (r_next r) by (by destruct r). rewrite -Hn. by destruct jk.
+    + replace (r_sticky _) with (r_sticky r) by (by destruct r).
+      replace (r_stack _) with stack' by (by destruct r).
+      replace (j_revs (jk <| j_nextrev := j_nextrev j |>)) with rest by (rewrite -Hrv; by destruct jk).
+      by apply stack_rel_set_next.
   - rewrite H. split; [done|]. by split.
-Abort.
+Qed.
